@@ -33,26 +33,6 @@ def HasGlyph (f : Font) (L : String) (g : Name) : Prop :=
 /-- "the font has a layer called `L`" -/
 def HasLayer (f : Font) (L : String) : Prop := ∃ l, AL.get? f.layers L = some l
 
-/-- nothing is held or disabled on layer `L`: every notification of the layer reaches the font at
-once (what holds as long as nobody calls `holdNotifications` / `disableNotifications` on it) -/
-def Undisturbed (f : Font) (L : String) : Prop :=
-  match AL.get? f.layers L with
-  | some l => l.held = 0 ∧ l.disabled = 0
-  | none => True
-
-instance (f : Font) (L : String) : Decidable (Undisturbed f L) := by
-  unfold Undisturbed; cases AL.get? f.layers L <;> exact inferInstance
-
-theorem Undisturbed.of_get? {f : Font} {L : String} {l : Layer} (h : Undisturbed f L)
-    (hget : AL.get? f.layers L = some l) : l.held = 0 ∧ l.disabled = 0 := by
-  unfold Undisturbed at h; rw [hget] at h; exact h
-
-theorem undisturbed_of_calm {f : Font} (hc : Calm f) (L : String) : Undisturbed f L := by
-  unfold Undisturbed
-  cases hget : AL.get? f.layers L with
-  | none => trivial
-  | some l => exact ⟨(calm_of_get? hc hget).1, (calm_of_get? hc hget).2.1⟩
-
 /-! ### Fixtures for the non-vacuity examples -/
 
 /-- two layers sharing the name `a`; a superset order (`x` is in no layer) -/
@@ -113,7 +93,7 @@ theorem created_in_order (f0 : Font) (h0 : WF f0) (ops : List Op) (L : String) (
        else glyphOrder (run f0 ops) ++ [g]) := by
   obtain ⟨l, hget⟩ := hL
   have hw := wf_run h0 ops
-  obtain ⟨hh, hd⟩ := hq.of_get? hget
+  obtain ⟨hh, hd⟩ := hq.of_get hget
   obtain ⟨h1, h2, h3⟩ := newGlyph_spec hw hget hh hd g
   refine ⟨h1, ?_, ?_, h3⟩
   · refine ⟨{ l with glyphs := addName l.glyphs g }, ?_, mem_addName.mpr (Or.inr rfl)⟩
@@ -168,7 +148,7 @@ theorem deleted_leaves_iff_gone (f0 : Font) (h0 : WF f0) (ops : List Op) (L : St
       glyphOrder (step (run f0 ops) (.delGlyph L g)).1 = (glyphOrder (run f0 ops)).erase g) := by
   obtain ⟨l, hget, hm⟩ := hg
   have hw := wf_run h0 ops
-  obtain ⟨hh, hd⟩ := hq.of_get? hget
+  obtain ⟨hh, hd⟩ := hq.of_get hget
   obtain ⟨h1, h2, b, hb, h3⟩ := delGlyph_spec hw hget hh hd hm
   have hex : Exists (step (run f0 ops) (.delGlyph L g)).1 g ↔ ExistsElsewhere (run f0 ops) L g := by
     simp only [step]; rw [exists_congr h2, exists_setLayer]; simp [mem_removeName]
@@ -194,7 +174,7 @@ theorem deleted_still_exists_iff_elsewhere (f0 : Font) (h0 : WF f0) (ops : List 
     (g : Name) (hg : HasGlyph (run f0 ops) L g) (hq : Undisturbed (run f0 ops) L) :
     Exists (step (run f0 ops) (.delGlyph L g)).1 g ↔ ExistsElsewhere (run f0 ops) L g := by
   obtain ⟨l, hget, hm⟩ := hg
-  obtain ⟨hh, hd⟩ := hq.of_get? hget
+  obtain ⟨hh, hd⟩ := hq.of_get hget
   obtain ⟨_, h2, _⟩ := delGlyph_spec (wf_run h0 ops) hget hh hd hm
   simp only [step]; rw [exists_congr h2, exists_setLayer]; simp [mem_removeName]
 
@@ -246,7 +226,7 @@ theorem rename_order (f0 : Font) (h0 : WF f0) (ops : List Op) (L : String) (old 
         specRename (glyphOrder (run f0 ops)) old new oldStays := by
   obtain ⟨l, hget, hm⟩ := hg
   have hw := wf_run h0 ops
-  obtain ⟨hh, hd⟩ := hq.of_get? hget
+  obtain ⟨hh, hd⟩ := hq.of_get hget
   obtain ⟨h1, h2, b, hb, h3⟩ := rename_spec hw hget hh hd hm hne
   have hex : Exists (step (run f0 ops) (.rename L old new)).1 old ↔ ExistsElsewhere (run f0 ops) L old := by
     simp only [step]; rw [exists_congr h2, exists_setLayer]; simp [mem_addName, mem_removeName, hne]
@@ -267,7 +247,7 @@ theorem renamed_old_stays_iff_elsewhere (f0 : Font) (h0 : WF f0) (ops : List Op)
     (hne : old ≠ new) :
     Exists (step (run f0 ops) (.rename L old new)).1 old ↔ ExistsElsewhere (run f0 ops) L old := by
   obtain ⟨l, hget, hm⟩ := hg
-  obtain ⟨hh, hd⟩ := hq.of_get? hget
+  obtain ⟨hh, hd⟩ := hq.of_get hget
   obtain ⟨_, h2, _⟩ := rename_spec (wf_run h0 ops) hget hh hd hm hne
   simp only [step]; rw [exists_congr h2, exists_setLayer]; simp [mem_addName, mem_removeName, hne]
 
